@@ -112,3 +112,27 @@ package wal
 //@   ensures [starts-with-file-zero] r1 == nil ==> r0 != nil && asType(*Appender, r0).nextWriterNumber == 1 && asType(*Appender, r0).currentWriter != nil &&
 //@           wrCount(asType(*Appender, r0).currentWriter) == 0 && asType(*Appender, r0).walOptions == walOpts
 //@   ensures r1 != nil ==> r0 == nil
+
+// ---------------------------------------------------------------------------------------------------
+// C07: replay. Files are visited in sorted name order; every record read is handed to the callback as read, before the next
+// one is read; a torn record at the tail of the newest file (process kill) ends the log, it is not an error.
+
+//@ fnvalue Options.readerFactory
+//@   ensures r1 == nil ==> r0 != nil && !rdClosed(r0) && rdPos(r0) == 0
+//@   fresh r0
+//@   modifies nothing
+
+// the callback: cbCount(f) records were handed to it so far
+//@ ghost cbCount(f Ref) Int
+//@ fnvalue (*Replayer).Replay#process
+//@   ensures cbCount(self) == old(cbCount(self)) + 1
+//@   modifies cbCount(self)
+
+//@ func (*Replayer).Replay
+//@   props C07 C13
+//@   replay wal_model
+//@   bounded wal_model replay after a kill: all programs of <= 3 (thorough: 4) steps over Append/AppendSync/Rotate x 4 record kinds (empty, small, larger than the size limit, larger than the write buffer) x 3 size limits; the directory as left after every step and with the newest file cut at 9 points (thorough: every length) back to the last returned synchronous append; writer creation faults at each rotation
+//@   requires r.walOptions != nil
+//@   call 3 of fmt.Errorf: assert [torn-tail-of-the-newest-file-is-not-an-error] !(i == len(walFiles) - 1 && errIs(callres(ReaderI.ReadNext, 0, 1), io.ErrUnexpectedEOF))
+//@   call 2 of fmt.Errorf: assert [headerless-newest-file-is-not-an-error] !(i == len(walFiles) - 1 &&
+//@        (errIs(callres(ReaderI.Open, 0, 0), io.EOF) || errIs(callres(ReaderI.Open, 0, 0), io.ErrUnexpectedEOF)))
